@@ -1,0 +1,23 @@
+//go:build verif
+
+// Verification hooks for property C13 (final outputs under outs/): exports of
+// the unexported post-processing entry point.  Compiled only with -tags verif.
+
+package core
+
+import (
+	"bytes"
+	"encoding/json"
+
+	"github.com/martian-lang/martian/martian/syntax"
+)
+
+// VerifMoveOutFiles runs moveOutFiles for one output parameter and returns
+// the rewritten JSON fragment it wrote.
+func VerifMoveOutFiles(param *syntax.StructMember, value json.RawMessage,
+	lookup *syntax.TypeLookup, pipestancePath, outsPath string) ([]byte, error) {
+	var w bytes.Buffer
+	err := moveOutFiles(&w, param, param.IsFile(), value, lookup,
+		pipestancePath, outsPath)
+	return w.Bytes(), err
+}
